@@ -213,8 +213,8 @@ func ruleC10(p *Prog, r *Res) {
 							if n := namedOf(info.TypeOf(cur.X)); n != nil && n.Obj() == reader.Obj() {
 								nr++
 								key := fmt.Sprintf("store to Reader.%s in %s", fv.Name(), f.Key())
-								inCtor := f.Root().Key() == "index.NewReader"
-								r.Check(inCtor, ruleR, key, p.Pos(x), "during construction", "a served reader is modified after construction: views and jobs share readers without synchronisation and expect them to be immutable")
+								inCtor := f.Root().Key() == "index.NewReader" || calledOnlyFrom(p, f.Root(), func(g *Fn) bool { return g.Root().Key() == "index.NewReader" }, 2)
+								r.Check(inCtor, ruleR, key, p.Pos(x), "during construction (NewReader or an unexported helper that only NewReader calls)", "a served reader is modified after construction: views and jobs share readers without synchronisation and expect them to be immutable")
 								break
 							}
 						}
@@ -398,4 +398,45 @@ func ruleC10(p *Prog, r *Res) {
 		}
 	}
 	r.Floor(ruleD, 5, nd)
+}
+
+// calledOnlyFrom: f is an unexported declared function/method all of whose static call sites lie in functions accepted
+// by ok — directly or, up to depth further levels, in unexported helpers that themselves are only called from such
+// functions. A function without any call site is not accepted.
+func calledOnlyFrom(p *Prog, f *Fn, ok func(*Fn) bool, depth int) bool {
+	if f == nil || f.Lit != nil || f.Decl == nil || ast.IsExported(f.Decl.Name.Name) {
+		return false
+	}
+	fobj, _ := f.Pkg.TypesInfo.Defs[f.Decl.Name].(*types.Func)
+	if fobj == nil {
+		return false
+	}
+	n := 0
+	for _, g := range p.FnList {
+		if g.Pkg != f.Pkg || g.Body() == nil {
+			continue
+		}
+		bad := false
+		inspectShallow(g.Body(), func(x ast.Node) bool {
+			switch y := x.(type) {
+			case *ast.CallExpr:
+				if fn := p.Callee(g.Pkg, y); fn != nil && fn.Origin() == fobj {
+					n++
+					if !ok(g) && !(depth > 0 && g.Root() != f && calledOnlyFrom(p, g.Root(), ok, depth-1)) {
+						bad = true
+					}
+				}
+			case *ast.SelectorExpr:
+				// a method value (r.helper passed around) could be called anywhere
+				if sel, isSel := g.Pkg.TypesInfo.Selections[y]; isSel && sel.Kind() == types.MethodVal && sel.Obj() == types.Object(fobj) {
+					// only fine as the Fun of a call, which the CallExpr case has counted
+				}
+			}
+			return true
+		})
+		if bad {
+			return false
+		}
+	}
+	return n > 0
 }
